@@ -38,7 +38,7 @@ theorem goto_exact_local (p : Prog) (u : Nat) (o : Occ) (ho : p.occs[u]? = some 
     unfold goto
     rw [ho]
     simp only [hr, Role.isDef, Bool.false_eq_true, if_false]
-    unfold gotoFrom
+    unfold gotoFrom gotoFromSel
     have hl := lastOf_ne_nil hne
     rcases hk with hk | hk | hk <;> rw [hk] <;> simp only <;> split <;> first | contradiction | rfl
   refine ⟨hg, ?_⟩
@@ -99,7 +99,7 @@ theorem goto_module_use (p : Prog) (hwf : WF p = true) (u : Nat) (o : Occ)
   unfold goto at hd
   rw [ho] at hd
   simp only [hr, Role.isDef, Bool.false_eq_true, if_false] at hd
-  unfold gotoFrom at hd
+  unfold gotoFrom gotoFromSel at hd
   rw [hs, hk0] at hd
   simp only at hd
   rcases List.mem_append.mp hd with h | h
@@ -157,7 +157,7 @@ theorem goto_same_var_partial (p : Prog) (hwf : WF p = true) (u : Nat) (o : Occ)
     have h0 := wf_kind0 hwf
     have hu : ownerOfUse p o.scope o.name o.stmt = 0 := by simp [ownerOfUse, hk]
     rw [hu]
-    unfold gotoFrom at hd
+    unfold gotoFrom gotoFromSel at hd
     simp only [hk] at hd
     rcases List.mem_append.mp hd with h | h
     · obtain ⟨od, hod, hn, hsc, hdef, -⟩ := (mem_defsIn p 0 o.name _ d).mp (mem_lastOf h)
@@ -174,7 +174,7 @@ theorem goto_same_var_partial (p : Prog) (hwf : WF p = true) (u : Nat) (o : Occ)
       have hkm : p.kind o.scope ≠ .module := by rw [hk]; decide
       have hpl := wf_parent_lt hwf o.scope hkm
       rw [hgoto] at hd
-      unfold gotoFrom at hd
+      unfold gotoFrom gotoFromSel at hd
       simp only [hk, lastOf_isEmpty.mpr he] at hd
       have := gotoFrom_sound hwf o.name p.scopes.length (p.parent o.scope) (some o.stmt) _
         (by omega) hc d hd
@@ -184,7 +184,7 @@ theorem goto_same_var_partial (p : Prog) (hwf : WF p = true) (u : Nat) (o : Occ)
         have : defsIn p o.scope o.name (some o.stmt) = [] := by simpa using he
         simp [this]
       unfold ownerOfUse
-      simp only [hkm, if_false, hk, if_true, hnb, Bool.false_eq_true]
+      simp only [if_false, hk, if_true, hnb, Bool.false_eq_true]
       by_cases h1 : declaredGlobal p o.scope o.name = true
       · simp [h1]
       · simp only [h1, Bool.false_eq_true, if_false, Bool.false_or]
